@@ -675,6 +675,9 @@ def m_km_into_iter(tr, c):
 def m_kmintoiter_next(tr, c):
     itl = tr.deref(c.args[0])
     it = itl.node
+    if it.kind == "struct" and it.tag == "VecIntoIter":
+        import models2
+        return models2.m_vec_intoiter_next(tr, c)
     m = tr.deref(VLoc(Loc(it.f("map"), itl.idxs)))
     p, vals, keys = m.node.f("present"), m.node.f("vals"), m.node.f("keys")
     vis = it.f("visited")
